@@ -389,6 +389,17 @@ ContentBytesOnly ==
         ((FreshHash("ContentFile", p, s.fs) = FreshHash("ContentFile", p, s'.fs))
          <=> s.fs[p].bytes = s'.fs[p].bytes)]_vars
 
+\* Model-level controls folded into the as-built runs (always TRUE; prints a WITNESS line when a
+\* strict invariant is false in a reachable state, i.e. TLC has the counterexample).  Together with
+\* the Unless-invariants this is "the invariant fails, and only through the named deviation".
+Witness ==
+  /\ (s.ob # 0 /\ ~FreshAt(s, s.ob) /\ "dir-copy-stale" \in s.dev)
+        => PrintT("WITNESS FreshAfterOp dir-copy-stale")
+  /\ (nops <= 1 /\ \E k \in OI(s) : ~ValidIffAt(s, k) /\ CMHit(s.objs[k].cls, s.objs[k].t, s.fs))
+        => PrintT("WITNESS ValidIff content-missing")
+  /\ (nops = 0 /\ ~HashTotal) => PrintT("WITNESS HashTotal content-missing")
+  /\ (s.last.kind = "raise") => PrintT("WITNESS RunNeverRaises content-missing")
+
 TypeOK == /\ Len(s.objs) <= MaxObjs
           /\ \A k \in OI(s) : s.objs[k].cls \in Classes /\ s.objs[k].t \in Targets(s.objs[k].cls)
           /\ \A k \in OI(s) : s.objs[k].hash = NoHash => CMHit(s.objs[k].cls, s.objs[k].t, s.fs)
